@@ -172,6 +172,7 @@ struct Stats {
     decs: u64,
     bound_reruns: u64,
     repos_netted_max_with_fee: u64,
+    by_amounts: u64,
     bound_failures: u64,
     repos_tight_max: u64,
     repos_tight_max_with_fee: u64,
@@ -435,11 +436,46 @@ fn dv_of(pre: &Ledger, post: &Ledger, vault: &solana_program::pubkey::Pubkey) ->
     balance(post, vault) as i128 - balance(pre, vault) as i128
 }
 
+/// increase_liquidity_by_token_amounts_v2 in every state, for every position and two pairs of maxima: the liquidity it adds is
+/// judged like an ordinary increase (vault receives the curve amounts, the owner pays the smallest fee-including amounts, the
+/// event reports them) and the owner is never debited more than the maxima offered.
+fn by_amounts_probe(wd: &W, l: &Ledger, stats: &Mutex<Stats>) -> Result<(), String> {
+    let w = &wd.b.w;
+    let mut local = Stats::default();
+    let mut n = 0u64;
+    for (pi, p) in w.positions.iter().enumerate() {
+        if !p.exists(l) {
+            continue;
+        }
+        let p = p.at(l);
+        let before = p.state(l).liquidity;
+        for (ma, mb) in [(1_000_000u64, 1_000_000u64), (40_000, 5_000_000)] {
+            let ix = world::ix_increase_by_token_amounts(&p, &w.lp, ma, mb, MIN_SQRT_PRICE, MAX_SQRT_PRICE);
+            let st = ops::apply_ix(l, &ix, svm::Route::Auto);
+            if !st.outcome.ok() {
+                continue;
+            }
+            let added = p.state(&st.ledger).liquidity - before;
+            let (da, db) = (balance(l, &w.lp.acct_a) - balance(&st.ledger, &w.lp.acct_a), balance(l, &w.lp.acct_b) - balance(&st.ledger, &w.lp.acct_b));
+            if da > ma || db > mb {
+                return Err(format!("increase_liquidity_by_token_amounts_v2(max {ma}/{mb}) on position {pi}: the owner was debited {da}/{db}"));
+            }
+            liq_oracle(wd, l, &st, pi, added, true, &mut local).map_err(|e| format!("increase_liquidity_by_token_amounts_v2(max {ma}/{mb}) on position {pi} [{}..{}) at tick {} added liquidity {added}: {e}", p.lower, p.upper, w.pool.state(l).tick_current_index))?;
+            n += 1;
+        }
+    }
+    stats.lock().unwrap().by_amounts += n;
+    Ok(())
+}
+
 fn model<'a>(wd: &'a W, stats: &'a Mutex<Stats>) -> PoolModel<'a> {
     PoolModel::new(
         &wd.b.w,
         alphabet(&wd.b),
-        Box::new(|l: &Ledger, w: &StdWorld| oracles::c01_vault_invariant(l, w)),
+        Box::new(move |l: &Ledger, w: &StdWorld| {
+            oracles::c01_vault_invariant(l, w)?;
+            by_amounts_probe(wd, l, stats)
+        }),
         Box::new(move |pre: &Ledger, st: &Stepped, w: &StdWorld, op: &Op| {
             let mut local = Stats::default();
             let r = match op {
@@ -528,6 +564,7 @@ pub fn run(ctx: &Ctx) -> Report {
         r.guard("handler_ops_after_the_newer_fee_started", s.after_switch_epoch);
         r.guard("handler_reposition_tight_maximum_reruns_with_transfer_fee", s.repos_tight_max_with_fee);
         r.guard("handler_reposition_netted_deposit_maximum_reruns_with_transfer_fee", s.repos_netted_max_with_fee);
+        r.guard("handler_increase_by_token_amounts_judged", s.by_amounts);
     }
     r.set("exhaustive", false);
     r.assume("svm-lite faithfully replaces the validator (DESIGN §2.1); the Token-2022 processor is the real one (withheld fees stay in the recipient account, so `amount` deltas are the net amounts)");
